@@ -73,6 +73,16 @@ Theorem C19_translation_side_conditions :
 Proof. exact tables_ok. Qed.
 Print Assumptions C19_translation_side_conditions.
 
+(* the decidable spec checker used on the REAL observations accepts every run of the model:
+   hence "model = real code on a request" (correspondence) + "checker flags the real result"
+   cannot both hold, and a flagged real result is a counterexample to the statements above *)
+Theorem C19_checker_accepts_model_runs : forall recs ps code v,
+  let r := set_code recs ps code v in
+  set_clauses ps code v (match r with Some _ => true | None => false end)
+              (match r with Some a => a | None => ps end) [] = [].
+Proof. exact chk_sound_set. Qed.
+Print Assumptions C19_checker_accepts_model_runs.
+
 (* non-vacuity: a concrete valid record, a settable identifier, an accepted write *)
 Example C19_nonvacuous :
   exists ps ps', validate ps = true /\ set [] ps P_MaxTxFee (2000000, ""%string) = Some ps'
